@@ -6,6 +6,14 @@ import os
 HERE = os.path.dirname(os.path.dirname(os.path.abspath(__file__)))
 
 CHECKS = {
+    'C19': dict(
+        engine='value-gen', category='exploration', design='4/C19',
+        technique='result monitors on every VectorizedOptimizer call + jax.debug.callback log of every evaluated batch + independent numpy re-scoring outside jit',
+        text=('layouts (0..6 continuous, 0..5 categorical, 3 padding schedules) x eagle (3 configs) and random strategies x 10 score '
+              'function classes x 6 prior classes x count/batch relations: count, unit cube, category range, padding fill and masks, '
+              'reward == score(candidate), returned == best evaluated, never worse than best prior, NaN never preferred, same seed '
+              'bitwise identical, different seeds differ.'),
+        note='Re-evaluation tolerance 5e-5*magnitude (float32) / 1e-11 (float64); JIT cost bounds the number of distinct shapes (~50 per quick run).'),
     'C05': dict(
         engine='crash', category='fault_enumeration', design='4/C05',
         technique='SIGKILL injection at every SQL execute/commit boundary of a forked real server (exhaustive per RPC x prefix) + strace syscall-level kills (thorough) + restart and recovery oracle',
